@@ -209,6 +209,16 @@ def mapRef (fwd : Id → Option Id) : Option Id → Val
     | some m => .new m
     | none => .old x
 
+/-- the reference a finished slot holds -/
+def valRef : Val → Option Id
+  | .new m => some m
+  | _ => none
+
+/-- The heap after the collection, as a snapshot again (to-objects by name, slots as references). -/
+def toSnap (st : State) : Snap where
+  heap := fun n => (st.tobjs n).map (fun t => { size := t.size, hash := t.hash, fields := t.fields.map valRef })
+  roots := st.troots.map valRef
+
 /-! ## Two-phase collectors (MarkCompact, Compressor)
 
 `markcompactspace.rs`: `trace_mark_object` (closure 1: `test_and_mark`, nothing moves,
